@@ -11,11 +11,12 @@ ROLES_PLAIN = [':ARG0', ':ARG1', ':ARG2', ':mod', ':domain', ':op1', ':op2', ':o
                ':x-of', ':u-of', ':w-of', ':y-z-of', ':prep-out-of']
 SYMS = ['-', '+', 'foo', 'bar', '7', '-1.5', '0', '0.0', '1e3', 'x', 'imperative', 'A',
         'b2', '\u03b5\u03c0', 'a.b', 'c,d', '^', "it's", '\u00a0', 'x\u2028y', '00', 'x\u3000y',
-        '\u0085', 'p#q', 'mi\ufeffkh', 'z\u200bw', 'cafe\u0301', '\u212bngstr']
+        '\u0085', 'p#q', 'mi\ufeffkh', 'z\u200bw', 'cafe\u0301', '\u212bngstr', '\u201cso\u201d', '\u201c1\u201d',
+        '\u2018x\u2019', '\u00abq\u00bb']
 STRS = ['"x"', '"a b"', '"(p)"', '"a~b"', '"q/:r"', '"\\"q\\""', '"#h"', '""', '"\\\\"',
         '"~1"', '"a\\nb"', '"\u00e9\u3000"', '"a ~e.1"', '"\u2028"', '"\tq\x0b"', '"a\ufeffb"', '"o\u031b\u0309 \u212a"']
 CONCEPTS = ['alpha', 'beta', 'bark-01', 'i', 'a', 'b', 'have-mod-91', '"str"', '7', 'A',
-            '\u03b5', '"~x"', '-', 'x1', '_', 'e\u0301t\u00e9']
+            '\u03b5', '"~x"', '-', 'x1', '_', 'e\u0301t\u00e9', '\u201cquoted\u201d']
 VARPOOL = ['a', 'b', 'c', 'd', 'e', 'f', 'g', 'h', 'i', 'x1', 'x2', '_', '_2', 'i2', 'a2',
            'v\u00e9', 'n0', 'zz', '10', '2.5', '-1', '_3', '_5']
 # ('10', '2.5', '-1' are legal variables - Variable <- Symbol - that look like numbers;
@@ -241,7 +242,7 @@ def features(node, rm=None):
 
 # ---------------------------------------------------------------- ill-formed trees (C01, C04)
 
-def mangle(rng, node, rm=None):
+def mangle(rng, node, rm=None, special_inverse=True):
     """Return an ill-formed variant: duplicate definitions, duplicate
     branches, over-inverted roles, ':instance' written as a role, nested empty
     nodes, missing targets."""
@@ -273,6 +274,11 @@ def mangle(rng, node, rm=None):
             elif y < 0.26:
                 out.append((rng.choice(ROLES_PLAIN) + rng.choice(['', '-of']),
                             (rng.choice(vs), [('/', rng.choice(CONCEPTS))])))  # duplicate definition
+            elif y < 0.30 and special_inverse:
+                # the inverse spelling of the concept role or of the top role, to a variable or a node:
+                # an inverted role like any other
+                out.append((rng.choice([':instance-of', ':instance-of', ':TOP-of']) + (mk_aln(rng) if rng.random() < 0.3 else ''),
+                            rng.choice(vs) if rng.random() < 0.6 else ('zz%d' % rng.randrange(9), [('/', 'thing')])))
         if rng.random() < 0.1:
             v = rng.choice(vs)                           # duplicate variable
         return (v, out)
